@@ -117,6 +117,8 @@ def logical_failures(R, g, fails, stats):
             "redo_twice": [G + ["rename", s, t], G + ["undo", "latest"], G + ["redo", "latest"], "REDO_FIRST_ID"],
             "same_second_repeat": [G + ["rename", s, t], G + ["undo", "latest"], G + ["rename", s, t], G + ["undo", "latest"], G + ["rename", s, t]],
             "occupied_destination": ["OCCUPY", G + ["rename", s, t]],
+            "dir_destination_dangling_link": ["OCCUPY_DIR_LINK", G + ["rename", s, t]],
+            "dir_destination_file": ["OCCUPY_DIR_FILE", G + ["rename", s, t]],
             "apply_without_plan": [G + ["apply"]],
             "unknown_id": [G + ["rename", s, t], G + ["undo", "0123456789abcdef"], G + ["redo", "0123456789abcdef"], G + ["apply", "0123456789abcdef"]],
             "invalid_regex": [G + ["replace", "(" + s, t]],
@@ -128,6 +130,14 @@ def logical_failures(R, g, fails, stats):
                 for step, cmd in enumerate(script):
                     if cmd == "OCCUPY":
                         (sb.root / "src" / f"{t}.rs").write_bytes(b"occupant\n")
+                        continue
+                    if cmd in ("OCCUPY_DIR_LINK", "OCCUPY_DIR_FILE"):
+                        import os
+                        dest = sb.root / "src" / f"{t}_dir"
+                        if cmd == "OCCUPY_DIR_LINK":
+                            os.symlink("../not-mounted-yet", dest)
+                        else:
+                            dest.write_bytes(b"a file where the directory wants to go\n")
                         continue
                     if cmd == "NONUTF8":
                         # names that are not valid UTF-8 (legal on Linux) cannot be written into plan.json / history.json
